@@ -24,4 +24,5 @@ import TypedpyModel.Props.C13Tie
 #print axioms Typedpy.C13.none_first_equiv
 #print axioms Typedpy.C13.none_inner_optional
 #print axioms Typedpy.C13.hasNoneOpt_position
+#print axioms Typedpy.C13.tuple_single_equiv
 #print axioms Typedpy.C13.equiv_example
